@@ -384,12 +384,15 @@ def scan_double_w(R):
                     if m.group(1).count("%w") > 1:
                         line = src.count("\n", 0, m.start()) + 1
                         hits.append("%s:%d" % (os.path.relpath(path, vlib.REPO), line))
+    return hits
+
+
+def add_double_w(verdict, hits):
     for h in hits:
         rec = {"invariant": "PlainWrapPreserves", "engine": "source", "features": ["DoubleW", "call-site"],
                "what": "doublew-call-site: cerrors.Errorf with two %%w at %s wraps neither operand" % h, "scenario": h}
-        R.verdict.add(rec, lambda h=h, rec=rec: vlib.write_replay(PROP, "doublew-" + h.replace("/", "_").replace(":", "_"),
-                                                                 {"id": h}, [], rec))
-    return hits
+        verdict.add(rec, lambda h=h, rec=rec: vlib.write_replay(PROP, "doublew-" + h.replace("/", "_").replace(":", "_"),
+                                                               {"id": h}, [], rec))
 
 
 def run(tier, seed):
@@ -398,7 +401,7 @@ def run(tier, seed):
     patch_known()
     vlib.build_harness()
     R = Run(tier, seed)
-    scan_double_w(R)
+    dw_hits = scan_double_w(R)
 
     # ---- the real registry, read from the real code
     tr = vlib.run_harness("errclass", [{"id": "registry", "kind": "registry"}], name="registry")[0]
@@ -474,6 +477,7 @@ def run(tier, seed):
 
     # ---- verdicts: one per (invariant, kind, top constructor), first case of each group is the replay
     verdict = vlib.Verdict(PROP)
+    add_double_w(verdict, dw_hits)
     groups, known_cases = {}, {}
     for cid, vs in by_case.items():
         c = R.by_id[cid]
